@@ -1,4 +1,5 @@
 import Splipy.Lemmas.TensorEvalSnap
+import Splipy.Lemmas.C08SeamRow
 
 /-!
 # Periodic directions wrap by the period (C02 helpers)
@@ -16,12 +17,32 @@ theorem Basis.specRow_add_period {b : Basis K} (hv : b.Valid) (hper : 0 ≤ b.pe
   rw [Basis.specRow_periodic hper, Basis.specRow_periodic hper, b.wrap_add_int_mul hv u m h1 h2]
 
 
+/-- The seam of a periodic basis has multiplicity `< order` (the basis functions are continuous
+across the seam), and the two domain ends are exact. -/
+def Basis.SeamContinuous (b : Basis K) (tol : K) : Prop :=
+  (∀ j, j + (b.order - 1) < b.knots.size → b.kn j = b.start →
+      b.kn (j + (b.order - 1)) ≠ b.start) ∧
+  b.ExactAt tol b.start ∧ b.ExactAt tol b.stop
+
+/-- Periodic basis with continuous seam: the specification row depends on the parameter only
+modulo the period, at EVERY exact parameter (domain end included). -/
+theorem Basis.rowVal_add_period {b : Basis K} (hv : b.Valid) (hper : 0 ≤ b.periodic) {tol : K}
+    (htol : 0 < tol) (hseam : b.SeamContinuous tol) {u : K} (m : ℤ) (hex : b.ExactAt tol u)
+    (hex' : b.ExactAt tol (u + m * (b.stop - b.start))) (j : ℕ) :
+    b.rowVal tol (u + m * (b.stop - b.start)) j = b.rowVal tol u j := by
+  unfold Basis.rowVal
+  rw [snap_of_exact b htol hex, snap_of_exact b htol hex',
+    evaluate_value_shift hv hper hseam.1 htol hseam.2.1 hseam.2.2 m hex hex']
+
 /-- Per-direction hypothesis of the period-shift theorems: either nothing is shifted, or the
-direction is periodic and all (shifted) parameters are exact and different from the domain end. -/
+direction is periodic, all original and shifted parameters are exact, and either none of them is
+the domain end `stop` or the seam is continuous (`b.SeamContinuous`). -/
 def Basis.ShiftOK (b : Basis K) (tol : K) (us : List K) (m : K → ℤ) : Prop :=
   (∀ u ∈ us, m u = 0) ∨
   (0 ≤ b.periodic ∧ ∀ u ∈ us, b.ExactAt tol u ∧ b.ExactAt tol (u + m u * (b.stop - b.start)) ∧
-      u ≠ b.stop ∧ u + m u * (b.stop - b.start) ≠ b.stop)
+      u ≠ b.stop ∧ u + m u * (b.stop - b.start) ≠ b.stop) ∨
+  (0 ≤ b.periodic ∧ b.SeamContinuous tol ∧
+    ∀ u ∈ us, b.ExactAt tol u ∧ b.ExactAt tol (u + m u * (b.stop - b.start)))
 
 theorem Basis.ShiftOK.basisMat_eq {b : Basis K} (hv : b.Valid) {tol : K} (htol : 0 < tol)
     {us : List K} {m : K → ℤ} (h : b.ShiftOK tol us m) :
@@ -33,24 +54,29 @@ theorem Basis.ShiftOK.basisMat_eq {b : Basis K} (hv : b.Valid) {tol : K} (htol :
   apply List.map_congr_left
   intro u hu
   simp only [Function.comp]
-  rcases h with h | ⟨hper, h⟩
+  rcases h with h | ⟨hper, h⟩ | ⟨hper, hseam, h⟩
   · rw [h u hu]; simp
   · obtain ⟨e1, e2, e3, e4⟩ := h u hu
     rw [snap_of_exact b htol e1, snap_of_exact b htol e2]
     exact C01_periodic_any_real hv hper htol (m u) e1 e2 e3 e4 0 true
+  · obtain ⟨e1, e2⟩ := h u hu
+    rw [snap_of_exact b htol e1, snap_of_exact b htol e2]
+    exact evaluate_value_shift hv hper hseam.1 htol hseam.2.1 hseam.2.2 (m u) e1 e2
 
 theorem Basis.ShiftOK.out_iff {b : Basis K} {tol : K} {us : List K} {m : K → ℤ}
     (h : b.ShiftOK tol us m) :
-    (b.periodic < 0 ∧ ∃ t ∈ us.map (fun u => u + m u * (b.stop - b.start)),
-        snap b tol t < b.start ∨ b.stop < snap b tol t)
-    ↔ (b.periodic < 0 ∧ ∃ t ∈ us, snap b tol t < b.start ∨ b.stop < snap b tol t) := by
-  rcases h with h | ⟨hper, -⟩
+    (b.periodic < 0 ∧ (us.map (fun u => u + m u * (b.stop - b.start)) = [] ∨
+      ∃ t ∈ us.map (fun u => u + m u * (b.stop - b.start)),
+        snap b tol t < b.start ∨ b.stop < snap b tol t))
+    ↔ (b.periodic < 0 ∧ (us = [] ∨ ∃ t ∈ us, snap b tol t < b.start ∨ b.stop < snap b tol t)) := by
+  rcases h with h | ⟨hper, -⟩ | ⟨hper, -⟩
   · have : us.map (fun u => u + m u * (b.stop - b.start)) = us := by
       conv_rhs => rw [← List.map_id us]
       apply List.map_congr_left
       intro u hu
       rw [h u hu]; simp
     rw [this]
+  · constructor <;> (rintro ⟨h, -⟩; omega)
   · constructor <;> (rintro ⟨h, -⟩; omega)
 
 /-- Surface: shifting the parameters of periodic directions by whole periods does not change the
